@@ -121,7 +121,7 @@ class DocGen:
 
     def desc(self, d: dict) -> dict:
         if self.on("descriptions") and self.rng.random() < 0.3:
-            d["description"] = self.rng.choice(["A thing.", "Some value used by the API", "See docs"])
+            d["description"] = self.rng.choice(["A thing.", "Some value used by the API", "See docs", "Größe – naïve café ☕ (non-ASCII)"])
         return d
 
     # ------------------------------------------------------------------ schema pieces
